@@ -146,7 +146,7 @@ MUTANTS = [
          old="            Self::Next => Self::V2_1,", new="            Self::Next => Self::V2_2,", expect="alias:Next"),
     dict(name="c37_flag_collision", prop="C37", file=FF, what="two flags share a bit",
          old="pub const FLAG_TABLE_CONFIG: u64 = 8;", new="pub const FLAG_TABLE_CONFIG: u64 = 16;", expect="distinct"),
-    dict(name="c37_writer_gate_removed", prop="C37", file=LC, what="commit funnel stops checking writer flags", occ=1,
+    dict(name="c37_writer_gate_removed", prop="C37", file=LC, what="commit funnel stops checking writer flags",
          old="        check_writer_feature_flags(&dataset.manifest)?;\n", new="", expect="gate-present:commit_transaction"),
     # ------------------------------------------------------------------ C39
     dict(name="c39_flush_open", prop="C39", file=MW, what="an open generation can be marked flushed",
@@ -188,4 +188,195 @@ MUTANTS = [
                     Ok(())""",
          new="""                    Ok(())""",
          expect="must-depend:UpdateMemWalState/UpdateMemWalState"),
+    # ------------------------------------------------------------------ C01
+    dict(name="c01_version_from_read_version", prop="C01", file=LC, what="published number computed from the read version, not the latest",
+         old="        target_version = dataset.manifest.version + 1;", new="        target_version = read_version + 1;",
+         expect="target=latest+1"),
+    dict(name="c01_detached_check_dropped", prop="C01", file=LC, what="detached-range numbers no longer refused",
+         old="        if is_detached_version(target_version) {", new="        if false && is_detached_version(target_version) {",
+         expect="refuses-detached-range"),
+    dict(name="c01_second_publisher", prop="C01", file="rust/lance/src/dataset/optimize.rs", what="a second caller of the publication funnel",
+         old="pub async fn plan_compaction(", new="""#[allow(dead_code)]
+pub(crate) async fn publish_directly(
+    dataset: &Dataset,
+    manifest: &mut lance_table::format::Manifest,
+) -> Result<()> {
+    crate::dataset::write_manifest_file(
+        dataset.object_store(),
+        dataset.commit_handler.as_ref(),
+        &dataset.base,
+        manifest,
+        None,
+        &Default::default(),
+        dataset.manifest_location.naming_scheme,
+        None,
+    )
+    .await
+    .map_err(|_| Error::Internal {
+        message: "x".into(),
+        location: location!(),
+    })?;
+    Ok(())
+}
+
+pub async fn plan_compaction(""", expect="write_manifest_file<-"),
+    dict(name="c01_write_after_publish", prop="C01", file=LC, what="a transaction file is (re)written after the manifest was published",
+         old="                if !indices.is_empty() {\n                    let key = IndexMetadataKey {",
+         new="                let _ = write_transaction_file(object_store, &dataset.base, &transaction).await;\n                if !indices.is_empty() {\n                    let key = IndexMetadataKey {",
+         expect="nothing-after-publish:commit_transaction"),
+    # ------------------------------------------------------------------ C05
+    dict(name="c05_no_sort", prop="C05", file=TX, what="fragments no longer sorted by id",
+         old="        final_fragments.sort_by_key(|frag| frag.id);\n", new="", expect="sort-by-id"),
+    dict(name="c05_flags_not_recomputed", prop="C05", file="rust/lance/src/dataset.rs", what="feature flags not recomputed before publication",
+         old="""    if config.auto_set_feature_flags {
+        apply_feature_flags(
+            manifest,
+            config.use_stable_row_ids,
+            config.disable_transaction_file,
+        )?;
+    }
+
+    manifest.set_timestamp(timestamp_to_nanos(config.timestamp));
+
+    manifest.update_max_fragment_id();""",
+         new="""    manifest.set_timestamp(timestamp_to_nanos(config.timestamp));
+
+    manifest.update_max_fragment_id();""", expect="flags<commit"),
+    dict(name="c05_merge_keeps_stale_indices", prop="C05", file=TX, what="Merge no longer drops indices of removed fields",
+         old="""                final_fragments.extend(fragments.clone());
+
+                // Some fields that have indices may have been removed, so we should
+                // remove those indices as well.
+                Self::retain_relevant_indices(&mut final_indices, &schema, &final_fragments)""",
+         new="""                final_fragments.extend(fragments.clone());""", expect="retain:Merge"),
+    # ------------------------------------------------------------------ C06
+    dict(name="c06_deterministic_deletion_id", prop="C06", file="rust/lance-table/src/io/deletion.rs", what="deletion file ids become deterministic",
+         old="            let id = rand::rng().random::<u64>();", new="            let id = fragment_id;", expect="deletion-id-random"),
+    dict(name="c06_new_mutator", prop="C06", file="rust/lance/src/dataset/optimize.rs", what="a new code path deletes data files",
+         old="pub async fn plan_compaction(", new="""#[allow(dead_code)]
+pub(crate) async fn drop_old_file(dataset: &Dataset, path: &object_store::path::Path) -> Result<()> {
+    dataset.object_store().delete(path).await
+}
+
+pub async fn plan_compaction(""", expect="mutator:dataset::optimize::drop_old_file"),
+    # ------------------------------------------------------------------ C08
+    dict(name="c08_ignore_tags", prop="C08", file="rust/lance/src/dataset/cleanup.rs", what="tagged versions no longer protected",
+         old="        let in_working_set = is_latest || !self.policy.should_clean(&manifest) || is_tagged;",
+         new="        let in_working_set = is_latest || !self.policy.should_clean(&manifest);",
+         expect="is_tagged=True"),
+    dict(name="c08_inverted_contains", prop="C08", file="rust/lance/src/dataset/cleanup.rs", what="referenced deletion files are the ones removed",
+         old="""                    if inspection
+                        .referenced_files
+                        .delete_paths
+                        .contains(&relative_path)
+                    {
+                        Ok(None)""",
+         new="""                    if !inspection
+                        .referenced_files
+                        .delete_paths
+                        .contains(&relative_path)
+                    {
+                        Ok(None)""", expect="class=deletions"),
+    dict(name="c08_no_age_guard", prop="C08", file="rust/lance/src/dataset/cleanup.rs", what="recent unverified files deleted",
+         old="""                let maybe_in_progress = !self.policy.delete_unverified
+                    && obj_meta.last_modified >= verification_threshold;""",
+         new="""                let maybe_in_progress = !self.policy.delete_unverified
+                    && obj_meta.last_modified < verification_threshold;""", expect="recent-test"),
+    dict(name="c08_manifest_read_error_skipped", prop="C08", file="rust/lance/src/dataset/cleanup.rs", what="unreadable manifests are skipped",
+         old="""        let manifest =
+            read_manifest(&self.dataset.object_store, &location.path, location.size).await?;""",
+         new="""        let Ok(manifest) =
+            read_manifest(&self.dataset.object_store, &location.path, location.size).await
+        else {
+            return Ok(());
+        };""", expect="manifest-read-error-propagates"),
+    # ------------------------------------------------------------------ C09
+    dict(name="c09_tag_delete_unvalidated", prop="C09", file="rust/lance/src/dataset/refs.rs", what="Tags::delete forgets its validator",
+         old="""    pub async fn delete(&self, tag: &str) -> Result<()> {
+        check_valid_tag(tag)?;
+""", new="""    pub async fn delete(&self, tag: &str) -> Result<()> {
+""", expect="Tags::delete"),
+    dict(name="c09_tag_wrong_version", prop="C09", file="rust/lance/src/dataset/refs.rs", what="tag records the resolved manifest's version instead of the requested one",
+         old="""        let tag_contents = TagContents {
+            branch,
+            version: version_number,
+            manifest_size,
+        };
+
+        self.object_store()
+            .put(
+                &tag_file,
+                serde_json::to_string_pretty(&tag_contents)?.as_bytes(),
+            )
+            .await
+            .map(|_| ())
+    }
+
+    pub async fn delete""",
+         new="""        let tag_contents = TagContents {
+            branch,
+            version: manifest_file.version,
+            manifest_size,
+        };
+
+        self.object_store()
+            .put(
+                &tag_file,
+                serde_json::to_string_pretty(&tag_contents)?.as_bytes(),
+            )
+            .await
+            .map(|_| ())
+    }
+
+    pub async fn delete""", expect="create_on_branch:version-field"),
+    dict(name="c09_slash_in_tag", prop="C09", file="rust/lance/src/dataset/refs.rs", what="tags may contain '/'",
+         old="""        .all(|c| c.is_alphanumeric() || c == '.' || c == '-' || c == '_')
+    {
+        return Err(Error::InvalidRef {
+            message: "Ref characters must be""",
+         new="""        .all(|c| c.is_alphanumeric() || c == '.' || c == '-' || c == '_' || c == '/')
+    {
+        return Err(Error::InvalidRef {
+            message: "Ref characters must be""", expect="check_valid_tag('a/b')"),
+    # ------------------------------------------------------------------ C19 / C20
+    dict(name="c19_negate_inexact", prop="C19", file="rust/lance-index/src/scalar/expression.rs", what="inexact results can be negated",
+         old="""                if scalar_query.needs_recheck() {
+                    return None;
+                }
+""", new="", expect="maybe_not:sq=inexact"),
+    dict(name="c19_null_guard_dropped", prop="C19", file="rust/lance-index/src/scalar/expression.rs", what="= NULL reaches the index",
+         old="""        if value.is_null() {
+            return None;
+        }
+        let query = match op {""", new="""        let query = match op {""", expect="visit_comparison"),
+    dict(name="c20_zonemap_exact", prop="C20", file="rust/lance-index/src/scalar/zonemap.rs", what="zone map claims an exact answer",
+         old="        Ok(SearchResult::AtMost(row_id_tree_map))", new="        Ok(SearchResult::Exact(row_id_tree_map))", expect="zonemap.rs:Exact"),
+    dict(name="c20_bloom_no_recheck", prop="C20", file="rust/lance-index/src/scalar/bloomfilter.rs", what="bloom filter parser built without recheck",
+         old="BloomFilterQueryParser::new(index_name, true)", new="BloomFilterQueryParser::new(index_name, false)", expect="bloomfilter.rs"),
+    dict(name="c20_atleast_restricted", prop="C20", file="rust/lance/src/io/exec/filtered_read.rs", what="AtLeast results read only the guaranteed rows again",
+         old="                        fragments_to_read.insert(fragment_id, to_read);\n\n                        Self::apply_skip_take_to_ranges(&mut guaranteed_ranges",
+         new="                        fragments_to_read.insert(fragment_id, guaranteed_ranges.clone());\n\n                        Self::apply_skip_take_to_ranges(&mut guaranteed_ranges",
+         expect="AtLeast-reads-all-candidates"),
+    # ------------------------------------------------------------------ C26 / C31 / C32
+    dict(name="c26_rle_decoder_arm_removed", prop="C26", file="rust/lance-encoding/src/compression.rs", what="miniblock RLE no longer decodable",
+         old="            Compression::Rle(rle) => {", new="            Compression::Rle(rle) if false => {", expect="Rle"),
+    dict(name="c31_complete_from_flush", prop="C31", file="rust/lance-io/src/object_writer.rs", what="flush completes the upload",
+         old="            UploadState::Started(_) | UploadState::Done(_) => Poll::Ready(Ok(())),\n            UploadState::CreatingUpload(_)",
+         new="            UploadState::Started(_) | UploadState::Done(_) => Poll::Ready(Ok(())),\n            UploadState::InProgress { .. } if false => {\n                self.state.in_progress_to_completing();\n                Poll::Pending\n            }\n            UploadState::CreatingUpload(_)",
+         expect="helper-callers:in_progress_to_completing"),
+    dict(name="c32_fragment_field_dropped", prop="C32", file="rust/lance-table/src/format/fragment.rs", what="physical_rows no longer serialised",
+         old="            physical_rows: f.physical_rows.unwrap_or_default() as u64,", new="            physical_rows: 0,",
+         expect="physical_rows"),
+    dict(name="c32_update_mode_dropped", prop="C32", file=TX, what="Update.fields_modified bound to _ in the encoder",
+         old="""                fields_modified,
+                mem_wal_to_merge,
+                fields_for_preserving_frag_bitmap,
+                update_mode,
+            } => pb::transaction::Operation::Update(pb::transaction::Update {""",
+         new="""                fields_modified: _,
+                mem_wal_to_merge,
+                fields_for_preserving_frag_bitmap,
+                update_mode,
+            } => pb::transaction::Operation::Update(pb::transaction::Update {
+                fields_modified: vec![],""", expect="Update.fields_modified"),
 ]
